@@ -375,7 +375,7 @@ fn range_case(rng: &mut Rng, k: usize) {
   let ws = fs.as_wavelength_space();
   let sd = fs.as_sum_diff_space();
   let singles = k % 3 == 0;
-  let mut emit_rep = |rep: &str, pts: Vec<(Frequency, Frequency)>, jsa: Vec<Complex<f64>>, jsi: Vec<f64>, jsin: Vec<f64>, jsis: Option<Vec<f64>>,
+  let emit_rep = |rep: &str, pts: Vec<(Frequency, Frequency)>, jsa: Vec<Complex<f64>>, jsi: Vec<f64>, jsin: Vec<f64>, jsis: Option<Vec<f64>>,
                       flat_jsi: Vec<f64>, grid: Value| {
     let jsa_pt: Vec<Complex<f64>> = pts.iter().map(|(a, b)| sp.jsa(*a, *b)).collect();
     let jsi_pt: Vec<f64> = pts.iter().map(|(a, b)| *(sp.jsi(*a, *b).value_unsafe())).collect();
